@@ -372,7 +372,8 @@ def random_file_desc(rng, max_passes=2, **lpopts):
     nfiles = rng.choice([1, 1, 1, 2])
     for fno in range(nfiles):
         if rng.random() < 0.85: items.append({'k': 'fh', 'tag': rng.choice('ABCDEF')})
-        if rng.random() < 0.1:      # data record with no DFSR in front of it: skipped by the indexer
+        # data record with no DFSR in front of it (only right behind a delimiter or at the very start): skipped by the indexer
+        if rng.random() < 0.1 and (not items or items[-1]['k'] in DELIM):
             items.append({'k': 'misc', 'type': rng.choice([0, 1]), 'n': rng.randint(0, 30), 'seed': rng.getrandbits(16)})
         for _ in range(rng.randint(0, 3)):
             _rand_other(rng, items)
